@@ -102,6 +102,19 @@ def run(ctx):
     progress(ctx, F)
 
 
+def counter_and_limit(ps):
+    """the position counter and its limit: the two fields of self compared on the index-less `None` path"""
+    counter = limit = None
+    for p in ps:
+        if p.status == 'return' and is_agg(p.ret, None, 'None'):
+            for t, v in p.cons:
+                if t[0] == 'bin' and t[1] in ('Ge', 'Lt', 'Gt', 'Le') and all(
+                        x[0] == 'load' and x[1][0] == SELF and len(x[1][1]) == 1 for x in (t[2], t[3])):
+                    a, b = t[2][1], t[3][1]
+                    counter, limit = (a, b) if t[1] in ('Ge', 'Lt') else (b, a)
+    return counter, limit
+
+
 def progress(ctx, F):
     from .C14 import iterator_next, index_field
     f = iterator_next(F)
@@ -113,7 +126,10 @@ def progress(ctx, F):
     # run with the record reader failing / succeeding: fork fallible calls
     I = absint.Interp(F, fork_fallible=True)
     ps = I.run(f)
-    pos_stores = {}
+    counter, limit = counter_and_limit(ps)
+    if counter is None:
+        ctx.missing("C07.progress", "position counter / limit comparison guarding the index-less iteration")
+        return
     n = 0
     for p in ps:
         if p.status != 'return' or not is_agg(p.ret, None, 'Some'):
@@ -130,18 +146,20 @@ def progress(ctx, F):
         adv = False
         amount = ""
         for e in p.eff:
-            if e[0] == 'store' and e[1][0] == SELF and 'pos' in str(e[1][1]):
+            if e[0] == 'store' and e[1] == counter:
                 iv = taint.Intervals(p.cons)
                 old = ('load', e[1])
                 v = e[2]
-                # v = old + delta with delta provably > 0
-                if v[0] == 'bin' and v[1] == 'Add':
-                    # flatten
+                if v == ('load', limit) or (v[0] == 'int' and v[1] >= 2 ** 64 - 1):
+                    adv = True
+                    amount = "counter := %s (the next call ends the iteration)" % ("limit" if v[0] == 'load' else "usize::MAX, at or above any limit")
+                # v = old + delta with delta provably > 0 (a saturating sum that reaches usize::MAX is >= any limit)
+                if v[0] in ('bin', 'sat') and v[1] == 'Add':
                     terms = []
                     st = [v]
                     while st:
                         x = st.pop()
-                        if x[0] == 'bin' and x[1] == 'Add':
+                        if x[0] in ('bin', 'sat') and x[1] == 'Add':
                             st += [x[2], x[3]]
                         else:
                             terms.append(x)
